@@ -1,7 +1,9 @@
 """C41 -- HAR export followed by HAR import preserves the exchange.
 
 Differential / round-trip monitor at the boundary the property names:
-``SaveHar().make_har(flows)`` -> ``json.dumps`` (as export_har does) -> ``mitmproxy.io.FlowReader`` on the bytes.
+``SaveHar().make_har(flows)`` -> ``json.dumps`` (as export_har does) -> ``mitmproxy.io.FlowReader`` on the bytes; half of the
+cases go through the real file writer instead (``SaveHar.export_har(flows, path)``, the code behind save.har / hardump) and the
+file's bytes are imported.
 
 Each case exports 1-4 generated HTTP flows in one HAR file.  The oracle is the generator's own record of
 what it put into each flow (method, URL parts, version, header field list, plain body bytes before any
@@ -18,6 +20,8 @@ differs; anything not explained by a listed mechanism is reported with mechanism
 import gzip
 import io as _io
 import json
+import os
+import shutil
 import zlib
 
 import brotli
@@ -30,14 +34,14 @@ PROPERTY = "C41"
 LEVEL = "exploration"
 BUDGET = {"quick": (1500, 14), "thorough": (40_000, 200)}
 WORKERS = {"quick": 2, "thorough": 16}
-REQUIRED = ["order_and_count", "method", "url", "http_version", "request_headers", "request_body", "status", "response_headers", "response_body"]
+REQUIRED = ["export_via_file", "export_via_memory", "order_and_count", "method", "url", "http_version", "request_headers", "request_body", "status", "response_headers", "response_body"]
 ENGINE = "direct"
 TECHNIQUE = "round-trip differential against the generator's own record of each exchange"
 RULE = (
-    "case = 1-4 HTTP flows exported together, their request start times ascending, descending, shuffled, all equal or with ties "
+    "case = 1-4 HTTP flows exported together (half through make_har+json.dumps, half through the real export_har file writer), their request start times ascending, descending, shuffled, all equal or with ties "
     "relative to the exported order; each flow = method (8 incl. an extension method) x scheme/host/port/path pools "
     "(queries, percent-encoding, non-default ports, explicit default port in Host, rare punycode host and IPv6 literal) x version (1.0, 1.1, 2.0, 3) x header "
-    "multisets (duplicates, mixed case, empty and non-ASCII UTF-8 values, rare Latin-1 bytes) x request body (none/text/form/binary) x "
+    "multisets (duplicates, mixed case, empty and non-ASCII UTF-8 values, non-UTF-8 bytes in ~8%) x rare raw non-ASCII path bytes x request body (none/text/text not decodable in its charset/form/binary) x "
     "response status x body kind (empty, text in utf-8/latin-1/shift_jis/utf-16/undeclared, json, html, binary) x content coding "
     "(identity, gzip, deflate, br) on either side; distinct = (one / several flows, start-time order mode, coarse feature tuple of the first flow [method "
     "class, version, request body kind and coding, response body kind, charset, coding, has Content-Length, rare-feature flags]); "
@@ -49,7 +53,7 @@ ASSUMPTIONS = [
     "CONNECT and asterisk-form requests are outside the domain (they have no URL to preserve)",
     "flows without a response are generated rarely and only checked for request preservation, order and totality",
     "'decoded body' means the bytes after removing the content coding (Message.content)",
-    "text bodies are valid in their declared charset; binary bodies are declared with a non-text media type and no charset",
+    "text bodies are valid in their declared charset except the explicit 'text_invalid' kind (Latin-1 / cp1252 bytes declared as utf-8); binary bodies are declared with a non-text media type and no charset",
 ]
 LEVEL_TEXT = (
     "Generated flows covering the listed dimensions are pushed through the real exporter and the real importer and compared field by "
@@ -85,7 +89,9 @@ RESP_HDRS = [
     (b"vary", b"accept"),
     (b"Vary", b"cookie"),
 ]
-LATIN1_HDR = (b"x-latin1", b"caf\xe9")
+LATIN1_HDRS = [(b"x-latin1", b"caf\xe9"), (b"content-disposition", b'attachment; filename="r\xe9sum\xe9.txt"'), (b"x-raw", b"\xff\xfe ok \x80")]
+RAW_PATHS = [b"/caf\xe9?x=\xff", b"/caf\xc3\xa9/x", b"/dl/r\xe9sum\xe9.txt"]
+INVALID_UTF8_TEXTS = [b"caf\xe9 r\xe9sum\xe9 - a plain text body that is Latin-1 but declared as UTF-8", b"price: 10 \x80 (cp1252 euro sign), declared utf-8, long enough to count as text"]
 TEXTS = ["hello world", "café naïve ü", "line1\r\nline2\n", "{\"k\": \"vé\"}", "a" * 300, "テスト text", "tab\there \"quoted\" \\ backslash"]
 PNG = b"\x89PNG\r\n\x1a\n\x00\x00\x00\rIHDR\x00\x00\x00\x01\x00\x00\x00\x01\x08\x06\x00\x00\x00\x1f\x15\xc4\x89"
 
@@ -102,7 +108,10 @@ def code(body: bytes, coding: str) -> bytes:
 
 def gen_body(r, side):
     """Return (plain_bytes, content_type or None, features dict)."""
-    kind = r.choice(["empty", "text", "text", "text", "json", "html", "binary", "form" if side == "req" else "text"])
+    kind = r.choice(["empty", "text", "text", "text", "json", "html", "binary", "form" if side == "req" else "text", "text_invalid"])
+    if kind == "text_invalid":
+        # a text body that does not decode in its declared charset (exported via the surrogateescape fallback of get_text)
+        return r.choice(INVALID_UTF8_TEXTS), "text/plain; charset=utf-8", {"body": "text_invalid", "charset": "utf-8"}
     if kind == "empty":
         return b"", r.choice([None, "text/plain"]), {"body": "empty", "charset": None}
     if kind == "binary":
@@ -140,22 +149,25 @@ def gen_flow(r, idx, t0=None):
     default_port = 80 if scheme == "http" else 443
     port = r.choice([default_port, default_port, default_port, 8080, 8443])
     path = r.choice(PATHS)
+    raw_path = r.random() < 0.03
+    path_b = r.choice(RAW_PATHS) if raw_path else path.encode()
+    path = path_b.decode("utf-8", "surrogateescape")  # how mitmproxy represents such a path as text
     version = r.choice(VERSIONS)
     h2 = version in ("HTTP/2.0", "HTTP/3")
     hostlit = f"[{host}]" if ipv6 else host
     explicit_default = port == default_port and r.random() < 0.05
     hostport = hostlit if (port == default_port and not explicit_default) else f"{hostlit}:{port}"
 
-    feats = {"method": method if method in BODY_METHODS or method in ("GET", "HEAD") else "other", "version": version, "ipv6": ipv6, "port": port != default_port, "explicit_default_port": explicit_default, "query": "?" in path, "punycode": host.startswith("xn--")}
+    feats = {"method": method if method in BODY_METHODS or method in ("GET", "HEAD") else "other", "version": version, "ipv6": ipv6, "port": port != default_port, "explicit_default_port": explicit_default, "query": "?" in path, "punycode": host.startswith("xn--"), "raw_path": raw_path}
 
     # ---- request
     rh = []
     if not h2 or r.random() < 0.3:
         rh.append((b"Host" if r.random() < 0.5 else b"host", hostport.encode()))
     rh += r.sample(REQ_HDRS, r.randint(0, 5))
-    latin1_req = r.random() < 0.03
+    latin1_req = r.random() < 0.08
     if latin1_req:
-        rh.append(LATIN1_HDR)
+        rh.append(r.choice(LATIN1_HDRS))
     rh.append((b"x-idx", str(idx).encode()))
     has_req_body = method in BODY_METHODS or r.random() < 0.05
     req_plain, req_ct, rbf = (gen_body(r, "req") if has_req_body else (b"", None, {"body": "none", "charset": None}))
@@ -174,7 +186,7 @@ def gen_flow(r, idx, t0=None):
         method.encode(),
         scheme.encode(),
         hostport.encode() if h2 else b"",
-        path.encode(),
+        path_b,
         version.encode(),
         http.Headers(rh),
         req_raw,
@@ -203,9 +215,9 @@ def gen_flow(r, idx, t0=None):
         return f, exp, feats
     status = r.choice([200, 200, 200, 201, 204, 301, 304, 404, 500, 599])
     sh = r.sample(RESP_HDRS, r.randint(0, 5))
-    latin1_resp = r.random() < 0.03
+    latin1_resp = r.random() < 0.08
     if latin1_resp:
-        sh.append(LATIN1_HDR)
+        sh.append(r.choice(LATIN1_HDRS))
     if status in (204, 304) or method == "HEAD":
         plain, ct, sbf = b"", None, {"body": "empty", "charset": None}
     else:
@@ -302,6 +314,8 @@ def classify(kind, feats, info):
             return "ipv6-literal-host"
         if feats.get("punycode") and feats["version"] in ("HTTP/2.0", "HTTP/3"):
             return "punycode-host-decoded-to-unicode"
+        if feats.get("raw_path"):
+            return "raw-non-ascii-path-bytes-import-raises"
         if feats.get("req_latin1") or feats.get("resp_latin1"):
             return "header-value-not-utf8-import-raises"
         return None
@@ -324,10 +338,31 @@ def classify(kind, feats, info):
     return None
 
 
+def export(sh, flows, route, tmpdir):
+    """HAR bytes of the flows: 'memory' = make_har + json.dumps as export_har does; 'file' = the real save.har / hardump writer
+    (SaveHar.export_har to a path) read back from disk."""
+    if route == "file":
+        p = os.path.join(tmpdir, "export.har")
+        sh.export_har(flows, p)
+        with open(p, "rb") as fh:
+            return fh.read()
+    return json.dumps(sh.make_har(flows), indent=4).encode()
+
+
 def run(ctx):
+    tmpdir = f"/tmp/vf-c41-{os.getpid()}-w{ctx.worker}"
+    os.makedirs(tmpdir, exist_ok=True)
+    try:
+        _run(ctx, tmpdir)
+    finally:
+        shutil.rmtree(tmpdir, ignore_errors=True)
+
+
+def _run(ctx, tmpdir):
     sh = SaveHar()
     for i in ctx.cases():
         r = ctx.rng
+        route = "file" if r.random() < 0.5 else "memory"
         n = r.choice([1, 1, 2, 3, 4])
         # request start times relative to the exported order: flows are exported in the order given (completion /
         # selection order), which need not be the order of their start times
@@ -359,26 +394,30 @@ def run(ctx):
 
         # ---- export (any exception here is a defect of the exporter on a well-formed flow)
         try:
-            har = sh.make_har(flows)
-            data = json.dumps(har, indent=4).encode()
+            data = export(sh, flows, route, tmpdir)
         except Exception as e:
             ctx.count("export_total")
-            ctx.violation("export-raises", {"exc": repr(e), "features": feats_all}, None)
+            ctx.violation("export-raises", {"exc": repr(e), "route": route, "features": feats_all}, None)
             ctx.case(("export-raises",), nontrivial=False)
             continue
         ctx.count("export_total")
+        ctx.count("export_via_" + route)
         # ---- import
         try:
             back = list(FlowReader(_io.BytesIO(data)).stream())
         except Exception as e:
             # find the culprit flow(s) by importing one at a time
+            culprits = 0
             for k in range(n):
                 try:
-                    list(FlowReader(_io.BytesIO(json.dumps(sh.make_har([flows[k]])).encode())).stream())
+                    list(FlowReader(_io.BytesIO(export(sh, [flows[k]], route, tmpdir))).stream())
                 except Exception as e2:
-                    ctx.violation("import-raises", W(k, {"exc": repr(e2), "cause": repr(e2.__context__)}), classify("import-raises", feats_all[k], {}))
+                    culprits += 1
+                    ctx.violation("import-raises", W(k, {"route": route, "exc": repr(e2), "cause": repr(e2.__context__)}), classify("import-raises", feats_all[k], {}))
+            if not culprits:
+                ctx.violation("import-raises", {"route": route, "exc": repr(e), "note": "every flow imports alone, the combined file does not", "features": feats_all}, None)
             ctx.count("import_total")
-            ctx.case(case_sig(feats_all, order_mode), nontrivial=any(nontrivial(fe) for fe in feats_all))
+            ctx.case(case_sig(feats_all, order_mode, route), nontrivial=any(nontrivial(fe) for fe in feats_all))
             continue
         ctx.count("import_total")
 
@@ -443,7 +482,7 @@ def run(ctx):
 
         ctx.count("flows_compared", n)
         ctx.case(
-            case_sig(feats_all, order_mode),
+            case_sig(feats_all, order_mode, route),
             nontrivial=any(nontrivial(fe) for fe in feats_all),
             sample={"n_flows": n, "start_time_order": order_mode, "features": feats_all[0], "url": gen[0][1]["url"], "request_headers": gen[0][1]["req_headers"], "response_headers": gen[0][1].get("resp_headers")},
         )
@@ -453,7 +492,7 @@ def sig_of(fe):
     """Coarse per-flow feature tuple."""
     flags = "".join(
         c
-        for c, k in (("6", "ipv6"), ("x", "punycode"), ("d", "explicit_default_port"), ("L", "req_latin1"), ("M", "resp_latin1"))
+        for c, k in (("6", "ipv6"), ("x", "punycode"), ("r", "raw_path"), ("d", "explicit_default_port"), ("L", "req_latin1"), ("M", "resp_latin1"))
         if fe.get(k)
     )
     if fe.get("req_dup") or fe.get("resp_dup"):
@@ -474,9 +513,9 @@ def sig_of(fe):
     )
 
 
-def case_sig(feats_all, order_mode="single"):
-    """Number of flows (1 / several), order of their start times, and the coarse feature tuple of the first flow."""
-    return (min(len(feats_all), 2), order_mode, sig_of(feats_all[0]))
+def case_sig(feats_all, order_mode="single", route="memory"):
+    """Number of flows (1 / several), order of their start times, export route, and the coarse feature tuple of the first flow."""
+    return (min(len(feats_all), 2), order_mode, route, sig_of(feats_all[0]))
 
 
 def nontrivial(fe):
